@@ -876,6 +876,34 @@ def evaluate(case, native):
             return True, (f'insertion context from a solution with tours {kinds} (per vehicle): the registry offers {native["available"]} but no kept tour uses '
                           f'{want_avail} - a vehicle is neither driving a tour nor available')
         return False, 'vehicle bookkeeping matches the tours'
+    if kind == 'shared_resource':
+        if native['left'] < 0:
+            return None, 'the solution of this case already over-uses the resource'
+        if native['rejected_fitting'] or not native['rejected_exceeding']:
+            return True, (f'shared resource of capacity {case["capacity"]} with demands {case["demands"]} (last job of route 0 inserted after the refresh): {native["left"]} left, but a job '
+                          f'needing {native["left"]} is {"rejected" if native["rejected_fitting"] else "accepted"} and one needing {native["left"] + 1} is '
+                          f'{"rejected" if native["rejected_exceeding"] else "accepted"} on the last route')
+        return False, 'the resource rule agrees with the demand of all routes'
+    if kind == 'skills':
+        job, veh = case['job'], set(case['vehicle'] or [])
+        ok = True
+        if job is not None:
+            if job['all_of'] is not None and not set(job['all_of']) <= veh:
+                ok = False
+            if job['one_of'] is not None and not (set(job['one_of']) & veh):
+                ok = False
+            if job['none_of'] is not None and (set(job['none_of']) & veh):
+                ok = False
+        if native['rejected'] == ok:
+            return True, f'job skills {job} offered to a vehicle with skills {case["vehicle"]}: {"rejected" if native["rejected"] else "admitted"}, the documented rule says {"admit" if ok else "reject"}'
+        return False, 'skills rule agrees'
+    if kind == 'compatibility':
+        tour_class = next((c for c in case['classes'] if c is not None), None)
+        must = case['class'] is not None and tour_class is not None and case['class'] != tour_class
+        if native['rejected'] != must:
+            return True, (f'a job of compatibility class {case["class"]} is {"rejected" if native["rejected"] else "admitted"} by a tour whose jobs have classes {case["classes"]} '
+                          f'(tag before the refresh: {case["previous_tag"]})')
+        return False, 'compatibility rule agrees with the tour'
     if kind == 'statistic_sum':
         for k_ in ('cost', 'distance', 'duration', 'driving', 'serving', 'waiting', 'break_time', 'commuting', 'parking'):
             want = case['a'][k_] + case['b'][k_]
